@@ -247,7 +247,7 @@ def from_tlc(g, rng: random.Random, idx: int) -> dict:
     elif style == 2 and len(names) >= 2:
         nets = [[a, b, [rng.choice([1, 2, 3]), rng.choice([1, 2])]] for a, b in zip(names, names[1:])]
     return {"W": g["W"] * K, "H": g["H"] * K, "mods": mods, "nets": nets, "n": g["n"],
-            "kappa1000": [400, 1000, 1500, 100, 3000][idx % 5], "call": "both" if idx % 2 == 0 else "layout", "origin": "tlc"}
+            "kappa1000": [400, 1000, 1500, 100, 3000][idx % 5], "call": "both" if idx % 3 == 0 else "layout", "origin": "tlc"}
 
 
 def random_cases(rng: random.Random, count: int) -> list[dict]:
@@ -390,7 +390,7 @@ def run(ctx: Ctx) -> int:
     rng = random.Random(ctx.seed * 1000003 + 13)
     cases = [from_tlc(g, rng, i) for i, g in enumerate(gen)]
     n_tlc = len(cases)
-    cases += random_cases(rng, 120 if tier == "quick" else 2400)
+    cases += random_cases(rng, 120 if tier == "quick" else 1500)
     decide(ctx, cases)
     ctx.extra["embeddings"] = ORIGIN0
     ctx.extra["cases_from_tlc"] = n_tlc
